@@ -341,7 +341,13 @@ func (ap *AP) T(axes ...int) (retVal AP, a []int, err error) {
 		if axes[0] == 0 {
 			return
 		}
+		// the stride of the non-unit axis moves with that axis (a vector that is a stepped view keeps its step)
 		strides[0], strides[1] = 1, 1
+		if currentShape[0] != 1 {
+			strides[1] = currentStride[0]
+		} else if len(currentStride) > 1 {
+			strides[0] = currentStride[1]
+		}
 		shape[0], shape[1] = currentShape[1], currentShape[0]
 	default:
 		copy(shape, currentShape)
